@@ -13,7 +13,7 @@ def parseItem (tok : String) : Option SpecItem :=
   | some 'S' => (decTok body).map .str
   | some 'T' =>
     match body.splitOn "," with
-    | [h, m, s, us, tz] =>
+    | h :: m :: s :: us :: tz :: _ =>     -- an optional sixth field names the kind of tzinfo object (same model)
       match h.toInt?, m.toInt?, s.toInt?, us.toInt? with
       | some h, some m, some s, some us =>
         if tz == "n" then some (.time { hour := h, minute := m, second := s, microsecond := us, tz := none })
@@ -62,11 +62,12 @@ def step (line : String) : String :=
       | .ok ls => "ok " ++ bits (runCalls ls (initStates ls) cs)
     | _, _ => "bad-op"
   | "sink" :: spec :: ct :: sz :: msgs =>
-    match parseSpec spec, ct.toInt?, sz.toInt?, msgs.mapM parseMsg with
-    | some items, some ct, some sz, some ms =>
+    match parseSpec spec, ct.toInt?, sz.toInt?,
+      msgs.mapM (fun t => if t == "R" then some SinkOp.restart else (parseMsg t).map SinkOp.msg) with
+    | some items, some ct, some sz, some ops =>
       match makeRotation items with
       | .error e => "err " ++ toString e
-      | .ok ls => "ok " ++ showFiles ((Sink.run ls (Sink.init ls ct sz) ms).files)
+      | .ok ls => "ok " ++ showFiles ((Sink.runOps ls (Sink.init ls ct sz) ops).files)
     | _, _, _, _ => "bad-op"
   | ["mk", spec] =>
     match parseSpec spec with
